@@ -539,7 +539,7 @@ def c15(run):
                                 n_files=2 if q else 8, n_events=4000 if q else 15000)
     path, descs = _destructure_descs(run, run.tier)
     for dbg in (True, False):        # second pass: caller and library built without debug assertions
-        ps = progs.ProgSet(run, "C15-destructure" if dbg else "C15-destructure-release", prelude=gd.LEDGER_PRELUDE, debug_assertions=dbg)
+        ps = progs.ProgSet(run, "C15-destructure" if dbg else "C15-destructure-release", prelude=progs.HOSTILE_PRELUDE + gd.LEDGER_PRELUDE, debug_assertions=dbg)
         for r in descs:
             if r["verdict"] != "Accepted":
                 continue
@@ -583,7 +583,7 @@ def c15(run):
 def _arraybuild_programs(run, descs, name, debug_assertions=True):
     import progs
     import gen_arraybuild as ga
-    ps = progs.ProgSet(run, name, debug_assertions=debug_assertions)
+    ps = progs.ProgSet(run, name, prelude=progs.HOSTILE_PRELUDE, debug_assertions=debug_assertions)
     for r in descs.values():
         if run.tier == "quick" and r["ending"] == "loop" and not (r["n"] == 2 and r["pos"] == 1):
             continue        # non-terminating programs cost a timeout each: quick keeps one per macro
@@ -664,7 +664,7 @@ def _iterdsl_programs(run, path, name, limit=None, seed=1, alt_sources=False, de
         rest = [r for r in lines if not interacting(r)]
         random.Random(seed).shuffle(rest)
         lines = pri + rest[:max(0, limit - len(pri))]
-    ps = progs.ProgSet(run, name, prelude=gi.USER_PRELUDE if alt_sources else "", debug_assertions=debug_assertions)
+    ps = progs.ProgSet(run, name, prelude=progs.HOSTILE_PRELUDE + (gi.USER_PRELUDE if alt_sources else ""), debug_assertions=debug_assertions)
     for k_line, r in enumerate(lines):
         cs = gi.case(r)
         if cs is None:
@@ -765,7 +765,7 @@ def c19(run):
     run.mc("MC_OptRes", "OptRes.quick.cfg" if q else "OptRes.thorough.cfg", env={"OUT": out},
            need_actions=("ExpandOpt", "ExpandRes"), heap="4g", timeout=2000)
     run.sample_file(out)
-    ps = progs.ProgSet(run, "C19-optres", prelude=go.PRELUDE)
+    ps = progs.ProgSet(run, "C19-optres", prelude=progs.HOSTILE_PRELUDE + go.PRELUDE)
     for l in open(out):
         for body, exp, rec in go.cases(json.loads(l)):
             ps.add(body, exp, rec)
@@ -797,7 +797,7 @@ def c18(run):
            env={"OUT": out, "HDR": hdr}, heap="8g", timeout=3000, workers=16)
     h = json.loads(open(hdr).readline())
     inputs, lits = h["inputs"], h["lits"]
-    ps = progs.ProgSet(run, "C18-parsermethod")
+    ps = progs.ProgSet(run, "C18-parsermethod", prelude=progs.HOSTILE_PRELUDE)
     for l in open(out):
         r = json.loads(l)
         altset = gp.ALTSETS[r["k"] - 1]
